@@ -53,6 +53,7 @@ const (
 	PTCPRunt
 	PExactSize
 	PNagging
+	PEdgeIDs
 )
 
 var ProbeNames = map[int]string{
@@ -91,6 +92,7 @@ var ProbeNames = map[int]string{
 	PTCPRunt:               "tcp_frame_too_short_to_be_a_request_between_requests",
 	PExactSize:             "request_of_exactly_a_receive_buffer_size",
 	PNagging:               "responder_repeats_mismatching_responses_with_the_query_id",
+	PEdgeIDs:               "transaction_ids_0x0000_and_0xffff",
 }
 
 var scenarioNames = [...]string{"nbns-server", "nbns-udp+tcp", "llmnr-server", "llmnr-client", "llmnr-client+server", "nbns-challenger", "nbns-lifecycle"}
